@@ -145,9 +145,10 @@ def check(ck: Checker) -> None:
         for c in calls_at(d):
             if c.args and isinstance(c.args[0], ast.Tuple) and len(c.args[0].elts) >= 2:
                 gi = [x for x in walk_own(fn.node) if isinstance(x, ast.Call) and call_name(x) == "_get_items"]
+                gi_fn = prog.func("index.diff", "_get_items")
                 srcs = []
                 for el in c.args[0].elts[:2]:
-                    who = [norm(x.args[0]) for x in gi if flows_from_calls(g, d, el, [x]) and x.args]
+                    who = [norm(get_arg(x, gi_fn, gi_fn.pos_params[0])) for x in gi if flows_from_calls(g, d, el, [x]) and get_arg(x, gi_fn, gi_fn.pos_params[0]) is not None]
                     srcs.append(who)
                 ck.require(srcs[0] == ["old"] and srcs[1] == ["new"], "C08.descent", fn, d, "children of (old, new) are queued together in that order", f"queued children come from {srcs}, not from (old, new)", construct=f"{d.text()} / sides")
     _unknown(ck, fn, g, descents)
@@ -285,10 +286,10 @@ def _renames(ck: Checker) -> None:
                 ck.fail("C08.renames", fn, n, f"`{norm(c)}` removes a whole per-hash queue from `{table}`: the other deletions with that hash are neither paired nor yielded at the end")
         if n.kind == "stmt" and isinstance(n.ast, ast.Delete) and any(table in norm(t) for t in n.ast.targets):
             ck.fail("C08.renames", fn, n, f"`{n.text()}` drops a per-hash queue from `{table}`")
-    renames = [(n, c) for n in g.nodes.values() if adds.id in n.loops for c in calls_at(n) if call_name(c) == "Change" and c.args and norm(c.args[0]) == "RENAME"]
+    renames = [(n, c) for n in g.nodes.values() if adds.id in n.loops for c in calls_at(n) if call_name(c) == "Change" and get_arg(c, None, "typ", 0) is not None and norm(get_arg(c, None, "typ", 0)) == "RENAME"]
     ck.floor("C08.renames", len(renames), 1, "rename constructions")
     for n, c in renames:
-        old_a, new_a = (c.args + [None, None, None])[1:3]
+        old_a, new_a = get_arg(c, None, "old", 1), get_arg(c, None, "new", 2)
         ck.require(old_a is not None and norm(old_a).endswith(".old") and new_a is not None and norm(new_a) == f"{norm(adds.ast.target)}.new", "C08.renames", fn, n,
                    "rename carries deletion.old and addition.new", f"rename is built from ({norm(old_a) if old_a is not None else None}, {norm(new_a) if new_a is not None else None})", construct=f"{norm(c)} / sides")
         dname = norm(old_a).rsplit(".", 1)[0] if old_a is not None else None
